@@ -7,7 +7,7 @@ TRUST = [
     "thread-modular reduction of DESIGN.md section 5 (rely/guarantee): roles IO/W, monitor rule for requests_lock and outbuf_lock, ownership token `requests != []`; its soundness is a paper argument",
     "Lock/Condition model: mutual exclusion, wait() atomically releases/re-acquires, no spurious wake-ups; after wait() the notifiers' guarantee (total < high watermark or disconnected) is assumed -- the notifying side is an obligation (W4)",
     "assumed, not proved: total_outbufs_len >= 0 (consequence of the accounting invariant total == sum of buffer lengths, which needs a sum over a list of buffers)",
-    "socket model: dispatcher.send accepts any 0..len(data) bytes, may raise a non-disconnect OSError, tears the channel down only when do_close is true",
+    "kernel socket model: socket.send accepts any 0..len(data) bytes or fails with an arbitrary errno, socket.recv returns any bytes or fails likewise (the bodies of wasyncore.dispatcher.send / recv are verified over this model); wasyncore.dispatcher.close and the poll loop are assumed",
     "Task.service is used by contract (demonic application: ClientDisconnected, any Exception, any BaseException; arbitrary close_on_finish / wrote_header; may set channel.will_close through a failed flush)",
     "pyvc VC generator, builtin model, cvc5/z3",
 ]
@@ -21,7 +21,8 @@ SELECT = {
     "C05": ("W1-", "W2", "W4-", "W5-", "R5:", "C05-", "lock:", "coverage:", "raises:OSError", "raises-only"),
     "C11": ("R6:", "C11-", "close-when-flushed-means-queue-dropped", "R1[req]", "coverage:", "service@W[service]/loop0"),
     "C12": ("C12-", "W4-", "W5-", "R5:", "lock:", "W1-", "coverage:", "pre:numbytes", "pre:nonneg"),
-    "C13": ("C13-", "__init__@IO/raises", "__init__@IO/coverage", "R4:", "pre:worker-never-closes", "no-teardown", "connected-only-cleared", "coverage:", "_flush_some@W/raises", "_flush_some@IOL/raises", "handle_write@IO/raises", "write_soon@W/raises", "handle_close@IO/"),
+    "C13": ("C13-", "__init__@IO/raises", "__init__@IO/coverage", "R4:", "pre:worker-never-closes", "no-teardown", "connected-only-cleared", "coverage:", "_flush_some@W/raises", "_flush_some@IOL/raises", "handle_write@IO/raises", "write_soon@W/raises", "handle_close@IO/",
+            "dispatcher.send@", "dispatcher.recv@", "handle_read@IO/"),
     "C19": ("C19-", "pre:partial-expecting-request", "pre:holds-requests-lock", "coverage:", "R1[req]:sent_continue", "R1[req]:request-"),
 }
 FUNCS = {
